@@ -81,17 +81,20 @@ pub struct Env {
     pub refid: [u8; 4],
     pub precision_raw: i64,
     pub root_delay_raw: i64,
+    /// what `TimeSnapshot::root_dispersion` returns (model, see `root_dispersion_stub`)
+    pub root_disp_raw: i64,
 }
 
 #[cfg(kani)]
 impl Env {
     /// Arbitrary environment. Assumptions (server-state invariants, not request properties):
-    /// precision and root delay are non-negative and root delay fits the 16.16 wire format
-    /// (`to_bits_short` asserts the first and debug-asserts the second; C22's concern).
+    /// precision, root delay and root dispersion are non-negative and the latter two fit the
+    /// 16.16 wire format (`to_bits_short` asserts the first and debug-asserts the second; C22's
+    /// concern).
     pub fn any() -> Env {
         let e = Env {
-            deny_client: kani::any(),
-            require_nts: kani::any(),
+            deny_client: false,
+            require_nts: 0,
             recv_raw: kani::any(),
             now_raw: kani::any(),
             stratum: kani::any(),
@@ -99,16 +102,40 @@ impl Env {
             refid: kani::any(),
             precision_raw: kani::any(),
             root_delay_raw: kani::any(),
+            root_disp_raw: kani::any(),
         };
-        kani::assume(e.require_nts <= 2);
         kani::assume(e.leap_code <= 4);
         kani::assume(e.precision_raw >= 0);
         kani::assume(e.root_delay_raw >= 0 && e.root_delay_raw <= 0x0000_FFFF_FFFF_FFFF);
+        kani::assume(e.root_disp_raw >= 0 && e.root_disp_raw <= 0x0000_FFFF_FFFF_FFFF);
         e
     }
 }
 
+/// Policy outcome of a run: constant per run (see c18.rs header for why).
+#[derive(Clone, Copy, PartialEq, Eq)]
+pub enum Policy {
+    /// client allowed, NTS not required
+    Serve,
+    /// client outside the allow list (action deny)
+    DenyAddress,
+    /// NTS required, non-NTS requests are denied
+    DenyNonNts,
+    /// NTS required, non-NTS requests are ignored
+    IgnoreNonNts,
+}
+
 impl Env {
+    pub fn with(&self, p: Policy) -> Env {
+        let mut e = *self;
+        e.deny_client = p == Policy::DenyAddress;
+        e.require_nts = match p {
+            Policy::DenyNonNts => 1,
+            Policy::IgnoreNonNts => 2,
+            _ => 0,
+        };
+        e
+    }
     pub fn leap(&self) -> NtpLeapIndicator {
         match self.leap_code {
             0 => NtpLeapIndicator::NoWarning,
@@ -144,7 +171,7 @@ impl Env {
             time_snapshot: TimeSnapshot {
                 precision: th::dur_from_raw(self.precision_raw),
                 root_delay: th::dur_from_raw(self.root_delay_raw),
-                // variance terms fixed to 0.0: root dispersion is 0 (keeps floats out)
+                // not used: `root_dispersion` is replaced by `root_dispersion_stub`
                 root_variance_base_time: th::ts_from_raw(0),
                 root_variance_base: 0.0,
                 root_variance_linear: 0.0,
@@ -172,7 +199,9 @@ impl Env {
                 1 => Some(FilterAction::Deny),
                 _ => Some(FilterAction::Ignore),
             },
-            accepted_versions: vec![NtpVersion::V3, NtpVersion::V4, NtpVersion::V5],
+            // order matters for cost only: `contains` stops at the match, and the unwind bound of the
+            // v4 templates is minimal
+            accepted_versions: vec![NtpVersion::V4, NtpVersion::V3, NtpVersion::V5],
         }
     }
     /// The server under test. The address filters are supplied ready-made (hook
@@ -180,6 +209,9 @@ impl Env {
     /// what `config()` describes; `IpFilter::new` itself is C31's subject (executing it
     /// symbolically costs > 10 GB even for one-entry lists).
     pub fn server(&self, bloom: v5::BloomFilter, keyset: Arc<KeySet>) -> Server<FixedClock> {
+        unsafe {
+            DISPERSION = self.root_disp_raw;
+        }
         ntp_proto::verif::server::server_from_parts(
             self.config(),
             FixedClock { now: th::ts_from_raw(self.now_raw) },
@@ -192,6 +224,15 @@ impl Env {
     pub fn recv(&self) -> NtpTimestamp {
         th::ts_from_raw(self.recv_raw)
     }
+}
+
+/// Model of `TimeSnapshot::root_dispersion` (sqrt of a cubic polynomial in f64; `powi` is
+/// nondeterministic in CBMC, so the real function "returns NaN" there): an arbitrary non-negative
+/// duration chosen by the harness (`Env::root_disp_raw`). Over-approximates every value the real
+/// function returns in the release profile; same model as np_server_h.
+pub static mut DISPERSION: i64 = 0;
+pub fn root_dispersion_stub(_s: &TimeSnapshot, _now: NtpTimestamp) -> NtpDuration {
+    th::dur_from_raw(unsafe { DISPERSION })
 }
 
 /// A key set without keys: every real cookie decode fails; enough for requests without NTS
@@ -230,32 +271,28 @@ pub fn wr16(b: &mut [u8], o: usize, v: u16) {
     b[o] = (v >> 8) as u8;
     b[o + 1] = v as u8;
 }
-/// `b[o..o+n] == c[p..p+n]` without memcmp, 8 bytes per step (keeps the unwind bound small:
-/// every loop the solver cannot bound is unrolled `unwind` times)
+/// `b[o..o+n] == c[p..p+n]` for n <= 64, loop-free (every loop the solver cannot bound is
+/// unrolled `unwind` times, and the unwind bound has to stay minimal: phantom iterations of the
+/// serializer's loops dominate the cost)
 pub fn same(b: &[u8], o: usize, c: &[u8], p: usize, n: usize) -> bool {
-    let mut i = 0;
+    assert!(n <= 64);
     let mut ok = true;
-    while i + 8 <= n {
-        ok &= rd64(b, o + i) == rd64(c, p + i);
-        i += 8;
-    }
-    while i < n {
-        ok &= b[o + i] == c[p + i];
-        i += 1;
-    }
+    macro_rules! w { ($($i:expr),*) => { $( if 8 * $i + 8 <= n { ok &= rd64(b, o + 8 * $i) == rd64(c, p + 8 * $i); } )* } }
+    w!(0, 1, 2, 3, 4, 5, 6, 7);
+    let t = n & !7;
+    macro_rules! t { ($($i:expr),*) => { $( if t + $i < n { ok &= b[o + t + $i] == c[p + t + $i]; } )* } }
+    t!(0, 1, 2, 3, 4, 5, 6);
     ok
 }
+/// `b[o..o+n]` is all zero, n <= 128, loop-free
 pub fn all_zero(b: &[u8], o: usize, n: usize) -> bool {
-    let mut i = 0;
+    assert!(n <= 128);
     let mut ok = true;
-    while i + 8 <= n {
-        ok &= rd64(b, o + i) == 0;
-        i += 8;
-    }
-    while i < n {
-        ok &= b[o + i] == 0;
-        i += 1;
-    }
+    macro_rules! w { ($($i:expr),*) => { $( if 8 * $i + 8 <= n { ok &= rd64(b, o + 8 * $i) == 0; } )* } }
+    w!(0, 1, 2, 3, 4, 5, 6, 7, 8, 9, 10, 11, 12, 13, 14, 15);
+    let t = n & !7;
+    macro_rules! t { ($($i:expr),*) => { $( if t + $i < n { ok &= b[o + t + $i] == 0; } )* } }
+    t!(0, 1, 2, 3, 4, 5, 6);
     ok
 }
 /// write an extension-field header (type, total length) at `o`
@@ -317,7 +354,7 @@ pub fn check_header_v34(resp: &[u8], req: &[u8], kind: Kind, env: &Env) {
             assert!(resp[2] == req[2], "poll is echoed");
             assert!(resp[3] == expected_precision(env.precision_raw), "precision is the server's");
             assert!(rd32(resp, 4) == ((env.root_delay_raw >> 16) as u32), "root delay is the server's");
-            assert!(rd32(resp, 8) == 0, "root dispersion is the server's (0 with zero variance terms)");
+            assert!(rd32(resp, 8) == ((env.root_disp_raw >> 16) as u32), "root dispersion is the server's");
             assert!(resp[12] == env.refid[0] && resp[13] == env.refid[1] && resp[14] == env.refid[2] && resp[15] == env.refid[3],
                 "reference id is the server's");
             let trunc = env.recv_raw & !((1u64 << 39) - 1);
@@ -353,7 +390,9 @@ pub fn check_header_v5(resp: &[u8], req: &[u8], kind: Kind, env: &Env) {
             let rd = env.root_delay_raw >> 4;
             let rd = if rd > u32::MAX as i64 { u32::MAX } else { rd as u32 };
             assert!(rd32(resp, 4) == rd, "root delay is the server's");
-            assert!(rd32(resp, 8) == 0, "root dispersion is the server's (0 with zero variance terms)");
+            let rp = env.root_disp_raw >> 4;
+            let rp = if rp > u32::MAX as i64 { u32::MAX } else { rp as u32 };
+            assert!(rd32(resp, 8) == rp, "root dispersion is the server's");
             assert!(resp[12] == 0 && resp[13] == 0, "timescale UTC, era 0");
             assert!(resp[14] == 0 && resp[15] == (env.stratum < 16) as u8, "flags: synchronized iff stratum < 16");
             assert!(rd64(resp, 32) == env.recv_raw, "receive timestamp is the reception time");
@@ -395,11 +434,12 @@ pub fn classify(resp: &[u8]) -> Kind {
 // Keys are identified by a one-byte id. The client of the modelled NTS association holds
 // (C2S_ID, S2C_ID); a decoded cookie hands exactly those two keys to the server.
 //
-// decrypt(nonce, ct, aad) under key K succeeds iff K is the c2s key, the harness-chosen ghost
-// `REQ_AUTHENTIC` is set ("the client really produced this (aad, nonce, ciphertext) under c2s")
-// and the code passed exactly the extents the client authenticated (aad = request prefix up to
-// the encrypted field, nonce and ciphertext = the field's nonce and ciphertext). Plaintext =
-// ciphertext minus the 16-byte tag (confidentiality is not modelled).
+// decrypt(nonce, ct, aad) under key K succeeds iff K is the c2s key and the harness-chosen ghost
+// `REQ_AUTHENTIC` is set ("the client really produced this (aad, nonce, ciphertext) under c2s");
+// whether the code passed exactly the extents the client authenticated (aad = request prefix up
+// to the encrypted field, nonce and ciphertext = the field's nonce and ciphertext) is recorded in
+// `DEC_BAD_EXTENTS` and asserted by the harness. Plaintext = ciphertext minus the 16-byte tag
+// (confidentiality is not modelled).
 //
 // encrypt(buf, n, aad): 16-byte nonce `ENC_NONCE_BYTE`, plaintext left in place, 16-byte tag
 // = key id repeated; the call (key, aad extent, plaintext length) is recorded.
@@ -430,6 +470,9 @@ pub static mut FRESH_COOKIE_LEN: usize = 0;
 pub static mut DEC_CALLS: u8 = 0;
 pub static mut DEC_OK: u8 = 0;
 pub static mut DEC_WRONG_KEY: u8 = 0;
+/// number of decrypt calls whose (aad, nonce, ciphertext) extents were NOT the ones the client
+/// authenticated
+pub static mut DEC_BAD_EXTENTS: u8 = 0;
 pub static mut ENC_CALLS: u8 = 0;
 pub static mut ENC_KEY: u8 = 0;
 pub static mut ENC_AAD_PTR: *const u8 = core::ptr::null();
@@ -457,23 +500,13 @@ impl Cipher for ModelCipher {
             ENC_AAD_LEN = associated_data.len();
             ENC_PT_LEN = plaintext_length;
             ENC_BUF_PTR = buffer.as_ptr();
-            let mut i = 0;
-            while i < associated_data.len() && i < 128 {
-                ENC_AAD_COPY[i] = associated_data[i];
-                i += 1;
-            }
+            let n = if associated_data.len() < 128 { associated_data.len() } else { 128 };
+            ENC_AAD_COPY[..n].copy_from_slice(&associated_data[..n]);
         }
         buffer.copy_within(..plaintext_length, NONCE_LEN);
-        let mut i = 0;
-        while i < NONCE_LEN {
-            buffer[i] = ENC_NONCE_BYTE;
-            i += 1;
-        }
-        let mut i = 0;
-        while i < TAG_LEN {
-            buffer[NONCE_LEN + plaintext_length + i] = self.id[0];
-            i += 1;
-        }
+        buffer[..NONCE_LEN].copy_from_slice(&[ENC_NONCE_BYTE; NONCE_LEN]);
+        let tag = [self.id[0]; TAG_LEN];
+        buffer[NONCE_LEN + plaintext_length..NONCE_LEN + plaintext_length + TAG_LEN].copy_from_slice(&tag);
         Ok(EncryptResult { nonce_length: NONCE_LEN, ciphertext_length: plaintext_length + TAG_LEN })
     }
 
@@ -484,13 +517,17 @@ impl Cipher for ModelCipher {
                 DEC_WRONG_KEY += 1;
                 return Err(DecryptError);
             }
+            // The extents are recorded, not branched on (a data-dependent Ok/Err would make the
+            // parse result symbolic, see c18.rs); the harness asserts DEC_BAD_EXTENTS == 0, i.e. the
+            // server verified exactly what the client authenticated.
             let extents_ok = associated_data.as_ptr() == EXP_AAD_PTR
                 && associated_data.len() == EXP_AAD_LEN
                 && nonce.as_ptr() == EXP_NONCE_PTR
                 && nonce.len() == EXP_NONCE_LEN
                 && ciphertext.as_ptr() == EXP_CT_PTR
                 && ciphertext.len() == EXP_CT_LEN;
-            if !(REQ_AUTHENTIC && extents_ok) || ciphertext.len() < TAG_LEN {
+            DEC_BAD_EXTENTS += !extents_ok as u8;
+            if !REQ_AUTHENTIC || ciphertext.len() < TAG_LEN {
                 return Err(DecryptError);
             }
             DEC_OK += 1;
@@ -678,6 +715,7 @@ macro_rules! srv_harness {
         harness! {
             #[kani::stub(ntp_proto::KeySet::decode_cookie, crate::common::model_decode_cookie)]
             #[kani::stub(ntp_proto::KeySet::encode_cookie, crate::common::model_encode_cookie)]
+            #[kani::stub(ntp_proto::TimeSnapshot::root_dispersion, crate::common::root_dispersion_stub)]
             #[kani::stub(core::str::from_utf8, crate::common::from_utf8_stub)]
             #[kani::stub(core::slice::ascii::is_ascii, crate::common::is_ascii_stub)]
             $(#[$m])*
